@@ -58,27 +58,32 @@ Theorem C07_str_order_total :
 Proof. exact (conj same_kind_order (conj str_ltb_irrefl (conj str_ltb_trans str_ltb_total))). Qed.
 Print Assumptions C07_str_order_total.
 
-(* < is defined (never NotImplemented, never an exception in the model) on any two terms whose literals
-   are plain / xsd:string / language-tagged strings or [+-]?[0-9]+ xsd:integers *)
-Theorem C07_sort_no_error : forall a b, modelled a = true -> modelled b = true -> term_lt a b <> None.
+(* PARTIAL (restricted to the modelled fragment): on two terms whose literals are plain / xsd:string / language-tagged
+   strings or [+-]?[0-9]+ xsd:integers the MODEL of < gives an answer (None means "not modelled").  This is a statement
+   about the coverage of the model, NOT that rdflib's < never raises: that clause of the property ("sort without
+   error") is established by running - every observed <, > must not be an exception, on every pair of every case. *)
+Theorem C07_lt_modelled_on_fragment_partial : forall a b, modelled a = true -> modelled b = true -> term_lt a b <> None.
 Proof. exact lt_defined. Qed.
-Print Assumptions C07_sort_no_error.
+Print Assumptions C07_lt_modelled_on_fragment_partial.
 
 (* < on the modelled terms - non-literals, plain / xsd:string / language-tagged literals, [+-]?[0-9]+ xsd:integers -
    is the strict total order key_lt of a sort key (kind and string; integer value; lower-cased tag and lexical form)
-   read through the key function skey_of: a STRICT WEAK ORDER, whose ties are exactly the terms with the same key *)
-Theorem C07_lt_is_key_order : forall a b, modelled a = true -> modelled b = true ->
+   read through the key function skey_of: a STRICT WEAK ORDER, whose ties are exactly the terms with the same key.
+   (PARTIAL: the fragment `modelled`; missing: every other literal - dates, times, durations, decimals, doubles, booleans,
+   NaN/INF, ill-typed, custom datatypes - whose order is checked by laws and runs only.) *)
+Theorem C07_lt_is_key_order_partial : forall a b, modelled a = true -> modelled b = true ->
   term_lt a b = Some (key_lt (skey_of a) (skey_of b)).
 Proof. exact term_lt_key. Qed.
-Print Assumptions C07_lt_is_key_order.
+Print Assumptions C07_lt_is_key_order_partial.
 
-Theorem C07_lt_strict_weak_order :
+(* the key order itself is a strict weak order (this speaks of < only through C07_lt_is_key_order_partial) *)
+Theorem C07_key_order_strict_weak :
   (forall a, tlt a a = false)
   /\ (forall a b c, tlt a b = true -> tlt b c = true -> tlt a c = true)
   /\ (forall a b c, tlt a b = false -> tlt b c = false -> tlt a c = false)
   /\ (forall a b, tlt a b = false -> tlt b a = false -> skey_of a = skey_of b).
 Proof. exact tlt_strict_weak_order. Qed.
-Print Assumptions C07_lt_strict_weak_order.
+Print Assumptions C07_key_order_strict_weak.
 
 (* sorting with < only (list.sort and sorted() call nothing but __lt__).  For ANY irreflexive comparison, two lists
    without inversion in which ties stand in the same order are equal: a correct stable comparison sort has exactly
@@ -120,14 +125,18 @@ Theorem C07_spec_ok_sorted_reads : forall c o, spec_ok c o = true ->
 Proof. exact sorted_ok_reads. Qed.
 Print Assumptions C07_spec_ok_sorted_reads.
 
-(* pickle / copy / deepcopy: every well-formed term comes back as itself (__reduce__ passes normalize=False since
-   the repair of finding F7a) *)
-Theorem C07_pickle : forall o t, wf_term t = true -> same_as t (unpickle o t) = true.
+(* WELL-FORMED (wf_term), used below as a hypothesis, is what the property's quantifier ranges over: strings are
+   sequences of code points; a literal has a language tag the constructor accepts OR a datatype IRI, not both, and a
+   datatype IRI is non-empty and one URIRef.n3() would write (none of _invalid_uri_chars).  Literal('a',
+   datatype=URIRef('')) and datatype IRIs containing a caret, a double quote, > etc. are outside: n3() cannot express them. *)
+(* pickle / copy / deepcopy: every well-formed term comes back as itself (__reduce__ passes normalize=False since the
+   repair of F7a, and hands Variable a '?' to strip since the repair of F7n) *)
+Theorem C07_pickle : forall o t, wf_term t = true -> same_strict t (unpickle o t) = true.
 Proof. exact pickle_same. Qed.
 Print Assumptions C07_pickle.
 
 (* the tie for the suite "laws": the checker evaluated on the implementation's answers accepts the model's *)
-Theorem C07_spec_ok_model : forall c, spec_ok c (model_obs c) = true.
+Theorem C07_spec_ok_model : forall c, hwf c = true -> spec_ok c (model_obs c) = true.
 Proof. exact Order.spec_ok_model. Qed.
 Print Assumptions C07_spec_ok_model.
 
@@ -182,25 +191,32 @@ Theorem C07_pickler_spec_ok_model : forall ts, forallb wf_term ts = true -> pspe
 Proof. exact pspec_ok_model. Qed.
 Print Assumptions C07_pickler_spec_ok_model.
 
-(* n3 text read back by from_n3, for EVERY well-formed term and every string (all escapes, both quoting forms, all of
-   Unicode): an IRI, blank node or variable comes back as itself, a literal as the literal the default constructor
-   builds from the lexical form shown in the text, its language and its datatype.  (respell_ok: a literal whose
-   INF/NaN spelling n3() changes has a lexical form without LF CR quote backslash.) *)
-Theorem C07_n3_from_n3 : forall o t s, wf_term t = true -> respell_ok t -> n3 t = Some s ->
+(* n3 text read back by from_n3, for every well-formed term and every string (all escapes, both quoting forms, all of
+   Unicode): an IRI, blank node or variable comes back as itself, a literal as the literal the DEFAULT (normalising)
+   constructor builds from the lexical form shown in the text, its language and its datatype.
+   PARTIAL: respell_ok - a literal whose INF/NaN spelling n3() changes must have a lexical form without LF CR quote
+   backslash (the proof does not follow the respelling through the escapes; the check does). *)
+Theorem C07_n3_from_n3_partial : forall o t s, wf_term t = true -> respell_ok t -> n3 t = Some s ->
   from_n3 o s =
   match t with
   | Lit lex dt lang => mk_literal o true (n3_lex lex dt) lang dt
   | _ => WTerm t
   end.
 Proof. exact from_n3_n3_wf. Qed.
-Print Assumptions C07_n3_from_n3.
+Print Assumptions C07_n3_from_n3_partial.
 
-(* ... hence a literal the constructor leaves alone reads back as the same term *)
-Theorem C07_n3_from_n3_same : forall o lex dt lang s,
-  wf_term (Lit lex dt lang) = true -> respelled lex dt = false -> ctor_lex o lex dt = Some lex ->
-  n3 (Lit lex dt lang) = Some s -> same_as (Lit lex dt lang) (from_n3 o s) = true.
+(* ... hence from_n3(t.n3()) is THE SAME TERM whenever the constructor leaves the n3-visible lexical form alone *)
+Theorem C07_n3_from_n3_same_partial : forall o lex dt lang s,
+  wf_term (Lit lex dt lang) = true -> respell_ok (Lit lex dt lang) -> ctor_lex o (n3_lex lex dt) dt = Some lex ->
+  n3 (Lit lex dt lang) = Some s -> same_strict (Lit lex dt lang) (from_n3 o s) = true.
 Proof. exact from_n3_n3_fixed. Qed.
-Print Assumptions C07_n3_from_n3_same.
+Print Assumptions C07_n3_from_n3_same_partial.
+
+(* ... and it is NOT the same term otherwise (open finding F7a, from_n3 half): a literal built with normalize=False *)
+Theorem C07_n3_from_n3_refuted : exists c s, twf c = true /\ tkf c = 1 /\ n3 (t_term c) = Some s
+  /\ from_n3 (t_orc c) s = WTerm (Lit [49] (Some xsd_integer) None) /\ same_strict (t_term c) (from_n3 (t_orc c) s) = false.
+Proof. exact from_n3_nonnormal_refuted. Qed.
+Print Assumptions C07_n3_from_n3_refuted.
 
 (* the two halves of that proof: what _quote_encode writes between the quotes is the rendering of a list of tokens
    (escaped backslash, escaped quote, escaped CR, raw character) whose values are the lexical form; and the passes
@@ -219,24 +235,37 @@ Theorem C07_decode_tokens : forall ts, Forall tok_ok ts ->
 Proof. exact decode_tokens. Qed.
 Print Assumptions C07_decode_tokens.
 
-(* the tie for the suite "text" (n3, from_n3, pickle of one term), at full strength *)
-Theorem C07_text_spec_ok_model : forall c, twf c = true -> tspec_ok c (tmodel_obs c) = true.
+(* the tie for the suite "text" (n3, from_n3, pickle of one term): outside the trigger of F7a the model returns THE
+   SAME TERM.  PARTIAL: twf = wf_term + respell_ok (see above) + the constructor oracle covers the literal. *)
+Theorem C07_text_spec_ok_model_partial : forall c, twf c = true -> tkf c = 0 -> tspec_ok c (tmodel_obs c) = true.
 Proof. exact tspec_ok_model. Qed.
-Print Assumptions C07_text_spec_ok_model.
+Print Assumptions C07_text_spec_ok_model_partial.
 
+(* the checker accepts only TERMS (never the model's "do not know") and demands the same term *)
 Theorem C07_text_spec_ok_reads : forall c o, tspec_ok c o = true ->
-  same_as (t_term c) (t_pickle o) = true
-  /\ (forall s, t_n3 o = Some s -> same_wres (normal_form (t_orc c) (t_term c)) (t_from o) = true)
+  (exists t', t_pickle o = WTerm t' /\ term_same (t_term c) t' = true)
+  /\ (forall s, t_n3 o = Some s -> exists t', t_from o = WTerm t' /\ term_same (t_term c) t' = true)
   /\ (t_n3 o = None -> exists s, t_term c = IRI s /\ valid_uri s = false)
   /\ ~ In (Some false) (t_flags o).
 Proof. exact tspec_ok_reads. Qed.
 Print Assumptions C07_text_spec_ok_reads.
+
+(* ... and in the laws suite only observations in which every term has a hash *)
+Theorem C07_spec_ok_hash_reads : forall c o, spec_ok c o = true ->
+  forall i, (i < length (c_terms c))%nat -> exists h, nth i (o_hash o) None = Some h.
+Proof. exact spec_ok_hash_reads. Qed.
+Print Assumptions C07_spec_ok_hash_reads.
 
 (* the code as it was before the "fix:" commits did not have these properties (findings F7a, F7b, F7e) *)
 Theorem C07_prefix_pickle_refuted :
   mk_literal [] true [48; 49] None (Some xsd_integer) = WTerm (Lit [49] (Some xsd_integer) None).
 Proof. exact prefix_pickle_refuted. Qed.
 Print Assumptions C07_prefix_pickle_refuted.
+
+Theorem C07_prefix_variable_refuted :
+  mk_var [63; 120] = WTerm (Var [120]) /\ unpickle [] (Var [63; 120]) = WTerm (Var [63; 120]).
+Proof. exact prefix_variable_refuted. Qed.
+Print Assumptions C07_prefix_variable_refuted.
 
 Theorem C07_prefix_bs_x_refuted :
   quote_encode [92; 120; 52; 49] = [34; 92; 92; 120; 52; 49; 34]
@@ -256,11 +285,11 @@ Print Assumptions C07_prefix_bs_quote_refuted.
 Example C07_nonvacuous :
   let c := {| c_terms := [BNd [97]; Var [97]; IRI [97]; Lit [97] None (Some [101; 110]); Lit [97] None (Some [102; 114]);
                           Lit [49] (Some xsd_integer) None];
-              c_hash := [] |} in
-  spec_ok c (model_obs c) = true
+              c_hash := [([97], 11%Z); ([101; 110], 12%Z); ([102; 114], 13%Z); ([49], 14%Z); (xsd_integer, 15%Z)] |} in
+  hwf c = true /\ spec_ok c (model_obs c) = true
   /\ nthd (o_lt (model_obs c)) 3 4 None = Some CLt
   /\ term_eqb (Lit [97] None (Some [101; 110])) (Lit [97] None (Some [69; 78])) = true
   /\ nthd (o_lt (model_obs c)) 0 1 None = Some CLt
   /\ (let t := {| t_term := Lit [10; 92; 34; 13; 128512; 92; 120] (Some [117; 114; 110; 58; 100]) None; t_orc := [] |} in
-      twf t = true /\ tspec_ok t (tmodel_obs t) = true /\ t_from (tmodel_obs t) = WTerm (t_term t)).
+      twf t = true /\ tkf t = 0 /\ tspec_ok t (tmodel_obs t) = true /\ t_from (tmodel_obs t) = WTerm (t_term t)).
 Proof. vm_compute. repeat split; reflexivity. Qed.
